@@ -22,6 +22,7 @@ def run(rep: core.Report):
 
     rep.rule("R12d", "band connection: on every path through the q-point loop on which one per-band result is reordered by band_order, every per-band result stored for that q-point (eigenvalues, eigenvectors, <e|dD|e>, group velocities) is reordered by it", 2)
     _r12d(rep)
+    _r12e(rep)
     # R12a -------------------------------------------------------------
     fn = core.find_def(GV, "GroupVelocity._calculate_group_velocity_at_q")
     lam, fac = sp.Symbol("lam", positive=True), sp.Symbol("factor", positive=True)
@@ -44,21 +45,55 @@ def run(rep: core.Report):
     rep.instance("R12a", GV, "GroupVelocity._calculate_group_velocity_at_q", core.src(fr[0]) if fr else "<vanished>", okf, "the frequency entering the chain rule is not sign(l) sqrt|l| factor", line=fn.lineno)
     # finite difference
     dfn = core.find_def(GV, "_delta_dynamical_matrix")
-    runs = [core.src(c.args[0]) for c in ast.walk(dfn) if isinstance(c, ast.Call) and core.src(c.func) == "dynmat.run"]
-    ret = [core.src(r.value) for r in ast.walk(dfn) if isinstance(r, ast.Return)]
-    rep.instance("R12a", GV, "_delta_dynamical_matrix", f"run({runs}) -> {ret}", runs == ["q - delta_q", "q + delta_q"] and ret == ["dm2 - dm1"],
-                 "the finite difference is not D(q + dq) - D(q - dq)", line=dfn.lineno)
+    # sequential reading: dynmat.run(X); name = dynmat.dynamical_matrix  binds name to the matrix at X
+    point = {}
+    cur = None
+    for st in dfn.body:
+        if isinstance(st, ast.Expr) and isinstance(st.value, ast.Call) and core.src(st.value.func).endswith(".run") and st.value.args:
+            cur = symalg.open_expr(core.src(st.value.args[0]))
+        elif isinstance(st, ast.Assign) and isinstance(st.targets[0], ast.Name) and core.src(st.value).endswith(".dynamical_matrix") and cur is not None:
+            point[st.targets[0].id] = cur
+    ret = [r.value for r in ast.walk(dfn) if isinstance(r, ast.Return) and r.value is not None]
+    ok_fd = False
+    shown = "<no return>"
+    if len(ret) == 1 and len(point) == 2:
+        e = symalg.open_expr(core.src(ret[0]))
+        pq, pd = symalg.open_expr(dfn.args.args[0].arg), symalg.open_expr(dfn.args.args[1].arg)
+        coef = {}
+        for nm, pt in point.items():
+            c = sp.expand(e).coeff(sp.Symbol(nm))
+            coef[str(sp.simplify(pt - pq))] = c
+        shown = f"returns {core.src(ret[0])} with matrices at q + {list(coef)}"
+        ok_fd = coef == {str(pd): 1, str(-pd): -1}
+    rep.instance("R12a", GV, "_delta_dynamical_matrix", shown, ok_fd, "the finite difference is not D(q + dq) - D(q - dq)", line=dfn.lineno)
     fd = core.find_def(GV, "GroupVelocity._get_dD_FD")
-    trr = symalg.OpenPyTranslator(where="_get_dD_FD")
-    trr.summary(fd)
-    app = (trr.appends.get("ddm") or [None])[-1]
-    okd = False
-    if app is not None:
-        ql = symalg.open_expr("self._q_length")
-        num, den = sp.fraction(sp.together(app))
-        okd = sp.simplify(den - 2 * ql) == 0 and "_delta_dynamical_matrix" in str(num)
-    its = [core.src(n.iter) for n in ast.walk(fd) if isinstance(n, ast.For)]
-    rep.instance("R12a", GV, "GroupVelocity._get_dD_FD", f"for dqc in {its}: ddm.append({core.norm(str(app), 70)})", okd and its == ["self._directions * self._q_length"],
+    parents = {c: p_ for p_ in ast.walk(fd) for c in ast.iter_child_nodes(p_)}
+    calls = [c for c in ast.walk(fd) if isinstance(c, ast.Call) and core.src(c.func) == "_delta_dynamical_matrix"]
+    if len(calls) != 1:
+        raise AnalysisError("R12a: expected one call of _delta_dynamical_matrix in GroupVelocity._get_dD_FD")
+    top = calls[0]
+    while isinstance(parents.get(top), ast.BinOp):
+        top = parents[top]
+    e = symalg.open_expr(core.src(top))
+    ce = symalg.open_expr(core.src(calls[0]))
+    ql = symalg.open_expr("self._q_length")
+    okd = sp.simplify(e * 2 * ql / ce - 1) == 0
+    # the displacement carries the step length exactly once
+    dq = calls[0].args[1]
+    seen, work, uses = set(), [dq], 0
+    while work:
+        x = work.pop()
+        uses += sum(1 for a_ in ast.walk(x) if isinstance(a_, ast.Attribute) and core.src(a_) == "self._q_length")
+        for nm in {n_.id for n_ in ast.walk(x) if isinstance(n_, ast.Name)} - seen:
+            seen.add(nm)
+            for st in ast.walk(fd):
+                if isinstance(st, ast.Assign) and any(isinstance(t, ast.Name) and t.id == nm for t in st.targets):
+                    work.append(st.value)
+                elif isinstance(st, ast.AugAssign) and isinstance(st.target, ast.Name) and st.target.id == nm:
+                    work.append(st.value)
+                elif isinstance(st, (ast.For, ast.comprehension)) and nm in {n_.id for n_ in ast.walk(st.target) if isinstance(n_, ast.Name)}:
+                    work.append(st.iter)
+    rep.instance("R12a", GV, "GroupVelocity._get_dD_FD", f"{core.norm(core.src(top), 80)}; step length enters the displacement {uses} time(s)", okd and uses == 1,
                  "the central difference is not divided by 2|dq| with the step |dq| = q_length along each unit direction", line=fd.lineno)
 
     # R12b --------------------------------------------------------------
@@ -159,6 +194,33 @@ def _attr_resolution(rep, files, rule):
         raise AnalysisError(f"{rule}: only {n} attribute uses on locally constructed repository objects found")
 
 
+def _r12e(rep):
+    """Frame typing of the finite-difference branch: the Cartesian unit directions are converted to reduced
+    reciprocal coordinates by (L-, Cart) . (Cart) before they displace q."""
+    from engine import frames
+    from engine.frames import C as CART, L as LAT, U as UNK
+
+    rep.rule("R12e", "finite-difference group velocity: the displacement handed to _delta_dynamical_matrix is the Cartesian direction converted to reduced coordinates with the matrix of matching orientation (frame typing), so that the difference is taken along the Cartesian axis the component is reported for", 2)
+    QRED = (LAT("p", "-"),)
+    fn = core.find_def(GV, "GroupVelocity._get_dD_FD")
+    seeds = {"self._reciprocal_lattice": (CART, LAT("p", "+")), "self._reciprocal_lattice_inv": (LAT("p", "-"), CART), "self._directions": (UNK, CART), "self._q_length": ()}
+    ty = frames.Typer(fn, seeds=seeds, params={"q": QRED}, call_sigs={"_delta_dynamical_matrix": {"pos": [QRED, QRED]}}, where=f"{GV}::_get_dD_FD")
+    problems = ty.run()
+    if not problems and ty.n_typed < 1:
+        raise AnalysisError(f"R12e: only {ty.n_typed} typed constructs in GroupVelocity._get_dD_FD (the seeds no longer match the code)")
+    rep.instance("R12e", GV, "GroupVelocity._get_dD_FD", f"{ty.n_typed} contractions / argument checks typed consistently", not problems,
+                 (problems[0].message if problems else "") + ": for a primitive cell whose lattice matrix is not symmetric the finite difference is taken along the wrong q-directions and the reported velocity is not the Cartesian gradient of the frequency", line=(problems[0].node.lineno if problems else fn.lineno))
+    init = core.find_def(GV, "GroupVelocity.__init__")
+    st = [s_ for s_ in ast.walk(init) if isinstance(s_, ast.Assign) and core.src(s_.targets[0]) == "self._reciprocal_lattice_inv"]
+    if not st:
+        raise AnalysisError("anchor vanished: GroupVelocity._reciprocal_lattice_inv")
+    ty2 = frames.Typer(init, seeds={}, params={}, where=f"{GV}::__init__")
+    ty2.run()
+    got = ty2.env.get("self._reciprocal_lattice_inv")
+    rep.instance("R12e", GV, "GroupVelocity.__init__", f"self._reciprocal_lattice_inv : {frames.show(got)}", got is None or (frames.same_axis(got[0], LAT("p", "-")) is not False and frames.same_axis(got[-1], CART) is not False),
+                 "the stored inverse reciprocal lattice is not the primitive cell with basis vectors in rows", line=st[0].lineno, nontrivial=got is not None)
+
+
 PER_BAND_SOURCES = ("np.linalg.eigh", "np.linalg.eigvalsh", "rotate_eigenvectors")
 
 
@@ -239,6 +301,8 @@ def selftest():
     b("gruneisen sign", GR, "self._gruneisen = -edDe / self._delta_strain / self._eigenvalues / 2", "self._gruneisen = edDe / self._delta_strain / self._eigenvalues / 2", "R12b", "_gruneisen")
     b("gruneisen dD reversed", GR, "dD = self._get_dD(q, self._dynmat_minus, self._dynmat_plus)", "dD = self._get_dD(q, self._dynmat_plus, self._dynmat_minus)", "R12b", "_get_dD")
     b("access path to a missing attribute", GV, "    return gv.group_velocities[0]", "    return gv.group_velocity[0]", "R12c", "group_velocity")
+    b("FD displacement with the transposed cell", GV, "            dq = np.dot(self._reciprocal_lattice_inv, dqc)", "            dq = np.dot(dqc, self._reciprocal_lattice_inv)", "R12e", "_get_dD_FD")
+    n("FD displacement as matmul", GV, "            dq = np.dot(self._reciprocal_lattice_inv, dqc)", "            dq = self._reciprocal_lattice_inv @ dqc")
     b("edDe appended without band order", GR, "                edDe.append(edDe_at_q[band_order])", "                edDe.append(edDe_at_q)", "R12d", "_set_gruneisen")
     b("group velocities on a band path not reordered", "phonopy/phonon/band_structure.py", "                    gv_on_path.append(gv[i][band_order])", "                    gv_on_path.append(gv[i])", "R12d", "_solve_dm_on_path")
     n("chain rule refactored", GV, "                gv[i, :] *= self._factor**2 / f / 2", "                gv[i, :] *= 0.5 * self._factor * self._factor / f")
